@@ -702,3 +702,425 @@ theorem finish_then_init (b : Buf) (hb : WB b) (hfit : b.num + 1 ≤ b.size) :
   rw [bit_take, if_pos (by omega), hbits, if_pos (by omega)]
 
 end Utcp.BB
+
+namespace Utcp.BB
+
+theorem natToBits_getD (n w i : Nat) : (natToBits n w).getD i false = (decide (i < w) && n.testBit i) := by
+  induction w generalizing n i with
+  | zero => simp [natToBits]
+  | succ w ih =>
+    cases i with
+    | zero =>
+      simp only [natToBits, List.getD_cons_zero, Nat.testBit_zero]
+      by_cases h : n % 2 = 1 <;> simp [h]
+    | succ i =>
+      simp only [natToBits, List.getD_cons_succ]
+      rw [ih (n / 2) i, Nat.testBit_add_one]
+      by_cases h : i < w
+      · have : i + 1 < w + 1 := by omega
+        simp [h, this]
+      · have : ¬ (i + 1 < w + 1) := by omega
+        simp [h, this]
+
+theorem testBit_mask0 (u j : Nat) : ((1 <<< u) - 1).testBit j = decide (j < u) := by
+  rw [Nat.one_shiftLeft, Nat.testBit_two_pow_sub_one]
+
+/-- one step of the second loop of `bitbuf_write_int_packed`: the byte `w` lands on bits `[8*di+u, 8*di+u+8)`, whatever was there; nothing else changes -/
+theorem packedStep (m : Mem) (hm : BytesOK m) (w di u : Nat) (hw : w < 256) (hu : u < 8) (hfit : 8 * di + u + 8 ≤ 8 * m.length) :
+    ∃ m', ((rd m di).bind fun x0 =>
+            (wr m di ((x0 &&& ((1 <<< u) - 1)) ||| ((w <<< u) % 256))).bind fun m1 =>
+            if u ≠ 0 then
+              (rd m1 (di + 1)).bind fun x1 => wr m1 (di + 1) ((x1 &&& (255 ^^^ ((1 <<< u) - 1))) ||| ((w >>> (8 - u)) % 256))
+            else some m1) = some m' ∧ m'.length = m.length ∧ BytesOK m' ∧
+      ∀ k, bit m' k = if 8 * di + u ≤ k ∧ k < 8 * di + u + 8 then w.testBit (k - (8 * di + u)) else bit m k := by
+  rw [rd_of_lt _ _ (by omega)]
+  simp only [Option.bind_some]
+  generalize hv0 : ((m.getD di 0 &&& ((1 <<< u) - 1)) ||| ((w <<< u) % 256)) = v0
+  rw [wr_of_lt _ _ _ (by omega)]
+  simp only [Option.bind_some]
+  have hb0 : ∀ j, j < 8 → (v0 % 256).testBit j = if j < u then (m.getD di 0).testBit j else w.testBit (j - u) := by
+    intro j hj
+    rw [← hv0, testBit_mod256, Nat.testBit_or, Nat.testBit_and, testBit_mask0, testBit_mod256, Nat.testBit_shiftLeft]
+    by_cases h : j < u
+    · have : ¬ (j ≥ u) := by omega
+      simp [hj, h, this]
+    · have : j ≥ u := by omega
+      simp [hj, h, this]
+  by_cases hu0 : u = 0
+  · subst hu0
+    simp only [ne_eq, not_true_eq_false, if_false]
+    refine ⟨_, rfl, by simp, bytesOK_set m hm _ _, ?_⟩
+    intro k
+    rw [bit_set _ _ _ _ (by omega)]
+    by_cases h1 : k / 8 = di
+    · have a : 8 * di + 0 ≤ k ∧ k < 8 * di + 0 + 8 := by omega
+      rw [if_pos h1, if_pos a, hb0 _ (by omega), if_neg (by omega)]
+      congr 1; omega
+    · have a : ¬ (8 * di + 0 ≤ k ∧ k < 8 * di + 0 + 8) := by omega
+      rw [if_neg h1, if_neg a]
+  · rw [if_pos hu0, rd_of_lt _ _ (by simp; omega)]
+    simp only [Option.bind_some]
+    generalize hv1 : (((m.set di (v0 % 256)).getD (di + 1) 0 &&& (255 ^^^ ((1 <<< u) - 1))) ||| ((w >>> (8 - u)) % 256)) = v1
+    rw [wr_of_lt _ _ _ (by simp; omega)]
+    have hx1 : (m.set di (v0 % 256)).getD (di + 1) 0 = m.getD (di + 1) 0 := by simp
+    have hb1 : ∀ j, j < 8 → (v1 % 256).testBit j = if j < u then w.testBit (8 - u + j) else (m.getD (di + 1) 0).testBit j := by
+      intro j hj
+      rw [← hv1, hx1, testBit_mod256, Nat.testBit_or, Nat.testBit_and, Nat.testBit_xor, testBit_mask0, testBit_mod256, Nat.testBit_shiftRight]
+      have e255 : (255 : Nat).testBit j = true := by
+        have : (255 : Nat) = 2 ^ 8 - 1 := rfl
+        rw [this, Nat.testBit_two_pow_sub_one]; simp [hj]
+      rw [e255]
+      by_cases h : j < u
+      · simp [hj, h]
+      · have hh : w.testBit (8 - u + j) = false := testBit_byte_hi _ _ hw (by omega)
+        simp [hj, h, hh]
+    refine ⟨_, rfl, by simp, bytesOK_set _ (bytesOK_set m hm _ _) _ _, ?_⟩
+    intro k
+    rw [bit_set _ _ _ _ (by simp; omega)]
+    by_cases h2 : k / 8 = di + 1
+    · rw [if_pos h2, hb1 _ (by omega)]
+      by_cases h3 : k % 8 < u
+      · have a : 8 * di + u ≤ k ∧ k < 8 * di + u + 8 := by omega
+        rw [if_pos h3, if_pos a]
+        congr 1; omega
+      · have a : ¬ (8 * di + u ≤ k ∧ k < 8 * di + u + 8) := by omega
+        rw [if_neg h3, if_neg a]
+        unfold bit; rw [h2]
+    · rw [if_neg h2, bit_set _ _ _ _ (by omega)]
+      by_cases h1 : k / 8 = di
+      · rw [if_pos h1, hb0 _ (by omega)]
+        by_cases h3 : k % 8 < u
+        · have a : ¬ (8 * di + u ≤ k ∧ k < 8 * di + u + 8) := by omega
+          rw [if_pos h3, if_neg a]
+          unfold bit; rw [h1]
+        · have a : 8 * di + u ≤ k ∧ k < 8 * di + u + 8 := by omega
+          rw [if_neg h3, if_pos a]
+          congr 1; omega
+      · have a : ¬ (8 * di + u ≤ k ∧ k < 8 * di + u + 8) := by omega
+        rw [if_neg h1, if_neg a]
+
+end Utcp.BB
+
+namespace Utcp.BB
+
+def packedStepE (m : Mem) (w di u : Nat) : Option Mem :=
+  (rd m di).bind fun x0 =>
+    (wr m di ((x0 &&& ((1 <<< u) - 1)) ||| ((w <<< u) % 256))).bind fun m1 =>
+    if u ≠ 0 then
+      (rd m1 (di + 1)).bind fun x1 => wr m1 (di + 1) ((x1 &&& (255 ^^^ ((1 <<< u) - 1))) ||| ((w >>> (8 - u)) % 256))
+    else some m1
+
+theorem packedStore_cons (w : Nat) (ws : List Nat) (m : Mem) (di u : Nat) :
+    packedStore (w :: ws) m di u = (packedStepE m w di u).bind fun m' => packedStore ws m' (di + 1) u := by
+  rw [packedStore]
+  unfold packedStepE
+  cases rd m di with
+  | none => rfl
+  | some x0 =>
+    simp only [Option.bind_some]
+    cases wr m di ((x0 &&& ((1 <<< u) - 1)) ||| ((w <<< u) % 256)) with
+    | none => rfl
+    | some m1 =>
+      simp only [Option.bind_some]
+      by_cases hu : u ≠ 0
+      · simp only [if_pos hu]
+        cases rd m1 (di + 1) with
+        | none => rfl
+        | some x1 =>
+          simp only [Option.bind_some]
+      · simp only [if_neg hu, Option.bind_some]
+
+/-- the bits of the byte groups, in order -/
+def wordsBits (ws : List Nat) : Bits := ws.flatMap (natToBits · 8)
+
+theorem wordsBits_length (ws : List Nat) : (wordsBits ws).length = 8 * ws.length := by
+  induction ws with
+  | nil => rfl
+  | cons w ws ih => simp [wordsBits, List.flatMap_cons] at ih ⊢; omega
+
+theorem packedStore_spec (u : Nat) (hu : u < 8) : ∀ (ws : List Nat) (m : Mem) (di : Nat), BytesOK m → (∀ w ∈ ws, w < 256) →
+    8 * di + u + 8 * ws.length ≤ 8 * m.length →
+    ∃ m', packedStore ws m di u = some m' ∧ m'.length = m.length ∧ BytesOK m' ∧
+      ∀ k, bit m' k = if 8 * di + u ≤ k ∧ k < 8 * di + u + 8 * ws.length then (wordsBits ws).getD (k - (8 * di + u)) false else bit m k := by
+  intro ws
+  induction ws with
+  | nil =>
+    intro m di hm _ _
+    refine ⟨m, by simp [packedStore], rfl, hm, ?_⟩
+    intro k
+    have : ¬ (8 * di + u ≤ k ∧ k < 8 * di + u + 8 * ([] : List Nat).length) := by simp
+    rw [if_neg this]
+  | cons w ws ih =>
+    intro m di hm hws hfit
+    simp only [List.length_cons] at hfit
+    obtain ⟨m1, h1, hl1, hk1, hb1⟩ := packedStep m hm w di u (hws w (by simp)) hu (by omega)
+    have h1' : packedStepE m w di u = some m1 := h1
+    obtain ⟨m2, h2, hl2, hk2, hb2⟩ := ih m1 (di + 1) hk1 (fun x hx => hws x (by simp [hx])) (by rw [hl1]; omega)
+    refine ⟨m2, by rw [packedStore_cons, h1']; exact h2, by rw [hl2, hl1], hk2, ?_⟩
+    intro k
+    rw [hb2 k]
+    simp only [List.length_cons]
+    have hwb : wordsBits (w :: ws) = natToBits w 8 ++ wordsBits ws := by simp [wordsBits, List.flatMap_cons]
+    by_cases hA : 8 * (di + 1) + u ≤ k ∧ k < 8 * (di + 1) + u + 8 * ws.length
+    · have a : 8 * di + u ≤ k ∧ k < 8 * di + u + 8 * (ws.length + 1) := by omega
+      rw [if_pos hA, if_pos a, hwb]
+      simp only [List.getD]
+      rw [List.getElem?_append_right (by simp; omega)]
+      simp only [natToBits_length]
+      congr 2; omega
+    · rw [if_neg hA, hb1 k]
+      by_cases hB : 8 * di + u ≤ k ∧ k < 8 * di + u + 8
+      · have a : 8 * di + u ≤ k ∧ k < 8 * di + u + 8 * (ws.length + 1) := by omega
+        rw [if_pos hB, if_pos a, hwb]
+        have hg := natToBits_getD w 8 (k - (8 * di + u))
+        simp only [List.getD] at hg ⊢
+        rw [List.getElem?_append_left (by simp; omega), hg]
+        have : k - (8 * di + u) < 8 := by omega
+        simp [this]
+      · have a : ¬ (8 * di + u ≤ k ∧ k < 8 * di + u + 8 * (ws.length + 1)) := by omega
+        rw [if_neg hB, if_neg a]
+
+theorem packedWords_lt (fuel v : Nat) : ∀ w ∈ packedWords fuel v, w < 256 := by
+  induction fuel generalizing v with
+  | zero => intro w hw; simp [packedWords] at hw
+  | succ f ih =>
+    intro w hw
+    simp only [packedWords, List.mem_cons] at hw
+    rcases hw with h | h
+    · subst h; split <;> omega
+    · split at h
+      · exact ih _ w h
+      · simp at h
+
+theorem wPacked_eq (fuel v : Nat) : Utcp.wPacked fuel v = wordsBits (packedWords fuel v) := by
+  induction fuel generalizing v with
+  | zero => rfl
+  | succ f ih =>
+    simp only [Utcp.wPacked, packedWords, wordsBits, List.flatMap_cons]
+    by_cases h : v / 128 = 0
+    · simp [h]
+    · have h' : (v / 128 != 0) = true := by simp [h]
+      simp only [h', if_true, ne_eq, h, not_false_eq_true]
+      rw [ih (v / 128)]; rfl
+
+/-- `bitbuf_write_int_packed`: the 1-5 byte groups land on the next `8 * groups` bits at any cursor alignment (each group straddling two bytes unless
+the cursor is byte aligned), or - not enough room - failure with everything untouched -/
+theorem writeIntPacked_refines (b : Buf) (hb : WB b) (v : Nat) :
+    (b.num + (Utcp.writeIntPacked v).length ≤ b.size → ∃ b', writeIntPacked b v = some (true, b') ∧ WB b' ∧ b'.size = b.size ∧
+        content b' = content b ++ Utcp.writeIntPacked v) ∧
+    (¬ b.num + (Utcp.writeIntPacked v).length ≤ b.size → writeIntPacked b v = some (false, b)) := by
+  have e32 : (4294967296 : Nat) = 2 ^ 32 := rfl
+  have hw : Utcp.writeIntPacked v = wordsBits (packedWords 5 (v % 4294967296)) := by
+    unfold Utcp.writeIntPacked; rw [wPacked_eq, e32]
+  have hlen : (Utcp.writeIntPacked v).length = (packedWords 5 (v % 4294967296)).length * 8 := by
+    rw [hw, wordsBits_length]; omega
+  have hs := hb.size
+  constructor
+  · intro hfit
+    unfold writeIntPacked allowOpt
+    rw [hlen] at hfit
+    simp only [hfit, decide_true, Bool.not_true, Bool.false_eq_true, if_false]
+    obtain ⟨m', hm, hl, hk, hbits⟩ := packedStore_spec (b.num % 8) (by omega) (packedWords 5 (v % 4294967296)) b.mem (b.num / 8) hb.bytes
+      (packedWords_lt 5 _) (by omega)
+    rw [hm]
+    have hpos : 8 * (b.num / 8) + b.num % 8 = b.num := by omega
+    rw [hpos] at hbits
+    have := wb_extend b hb m' (Utcp.writeIntPacked v) (by rw [hlen]; exact hfit) hl hk (by
+      intro k
+      rw [hbits k, hlen, hw]
+      have : 8 * (packedWords 5 (v % 4294967296)).length = (packedWords 5 (v % 4294967296)).length * 8 := by omega
+      rw [this])
+    rw [hlen] at this
+    exact ⟨_, rfl, this.1, rfl, this.2⟩
+  · intro hno
+    unfold writeIntPacked allowOpt
+    rw [hlen] at hno
+    simp [hno]
+
+end Utcp.BB
+
+namespace Utcp.BB
+
+theorem testBit_bitsToNat (bs : Bits) : ∀ i, (bitsToNat bs).testBit i = bs.getD i false := by
+  induction bs with
+  | nil => intro i; simp [bitsToNat]
+  | cons b bs ih =>
+    intro i
+    cases i with
+    | zero =>
+      simp only [bitsToNat, Nat.testBit_zero, List.getD_cons_zero]
+      cases b <;> simp <;> omega
+    | succ i =>
+      rw [Nat.testBit_add_one, List.getD_cons_succ, ← ih i]
+      congr 1
+      simp only [bitsToNat]
+      cases b <;> simp <;> omega
+
+theorem testBit_maskN (n j : Nat) : (((1 <<< n) - 1) % 256).testBit j = (decide (j < 8) && decide (j < n)) := by
+  rw [testBit_mod256, testBit_mask0]
+
+/-- the byte `bitbuf_read_int_packed` assembles from one or two array bytes is the next eight bits of the buffer -/
+theorem packedByte (m : Mem) (_hm : BytesOK m) (num : Nat) (hfit : num + 8 ≤ 8 * m.length) :
+    ∃ s0 s1, rd m (num / 8) = some s0 ∧ (if num % 8 ≠ 0 then rd m (num / 8 + 1) else rd m (num / 8)) = some s1 ∧
+      (((s0 >>> (num % 8)) &&& (((1 <<< (8 - num % 8)) - 1) % 256)) ||| ((s1 &&& (((1 <<< (num % 8)) - 1) % 256)) <<< ((8 - num % 8) % 8))) % 256
+        = bitsToNat (bitsFrom m num 8) := by
+  have hu : num % 8 < 8 := by omega
+  refine ⟨m.getD (num / 8) 0, if num % 8 ≠ 0 then m.getD (num / 8 + 1) 0 else m.getD (num / 8) 0, rd_of_lt _ _ (by omega), ?_, ?_⟩
+  · by_cases h : num % 8 ≠ 0
+    · rw [if_pos h, if_pos h, rd_of_lt _ _ (by omega)]
+    · rw [if_neg h, if_neg h, rd_of_lt _ _ (by omega)]
+  · apply Nat.eq_of_testBit_eq
+    intro j
+    rw [testBit_bitsToNat, testBit_mod256]
+    by_cases hj : j < 8
+    · rw [bitsFrom_getD _ _ _ _ hj, Nat.testBit_or, Nat.testBit_and, Nat.testBit_shiftRight, testBit_maskN, Nat.testBit_shiftLeft, Nat.testBit_and, testBit_maskN]
+      by_cases h0 : num % 8 = 0
+      · have hnum : num + j = 8 * (num / 8) + j := by omega
+        rw [hnum, bit_at _ _ _ hj, h0]
+        simp [hj]
+      · have hl : (8 - num % 8) % 8 = 8 - num % 8 := by omega
+        rw [hl, if_pos h0]
+        by_cases hc : num % 8 + j < 8
+        · have hnum : num + j = 8 * (num / 8) + (num % 8 + j) := by omega
+          rw [hnum, bit_at _ _ _ hc]
+          have a1 : j < 8 - num % 8 := by omega
+          have a2 : ¬ (j ≥ 8 - num % 8) := by omega
+          simp [hj, a1, a2]
+        · have hnum : num + j = 8 * (num / 8 + 1) + (num % 8 + j - 8) := by omega
+          rw [hnum, bit_at _ _ _ (by omega)]
+          have a1 : ¬ (j < 8 - num % 8) := by omega
+          have a2 : j ≥ 8 - num % 8 := by omega
+          have a3 : j - (8 - num % 8) < 8 := by omega
+          have a4 : j - (8 - num % 8) < num % 8 := by omega
+          have a5 : j - (8 - num % 8) = num % 8 + j - 8 := by omega
+          simp [hj, a1, a2, a5]
+          intro _; omega
+    · have : (bitsFrom m num 8).getD j false = false := by
+        simp only [List.getD]
+        rw [List.getElem?_eq_none (by simp; omega)]; rfl
+      rw [this]; simp [hj]
+
+end Utcp.BB
+
+namespace Utcp.BB
+
+theorem packedAcc (byte shift value : Nat) (hv : value < 2 ^ shift) :
+    (((byte >>> 1) <<< shift) ||| value) % 4294967296 = (value + (byte / 2) * 2 ^ shift) % 2 ^ 32 := by
+  have e32 : (4294967296 : Nat) = 2 ^ 32 := rfl
+  rw [e32, Nat.shiftRight_eq_div_pow, Nat.shiftLeft_eq, Nat.pow_one]
+  have := Nat.two_pow_add_eq_or_of_lt hv (byte / 2)
+  rw [Nat.mul_comm (byte / 2) (2 ^ shift), ← this, Nat.add_comm]
+
+theorem rPackedLoop_spec (m : Mem) (hm : BytesOK m) (size : Nat) (hs : size ≤ 8 * m.length) :
+    ∀ (fuel num shift value : Nat), value < 2 ^ shift → num ≤ size →
+      ∃ ok v num', rPackedLoop fuel m size num (num / 8) (num % 8) shift value = some (ok, v, num') ∧ num ≤ num' ∧ num' ≤ size ∧
+        Utcp.rPackedLoop fuel shift value (bitsFrom m num (size - num)) =
+          (if ok then .ok v (bitsFrom m num' (size - num')) else .fail (bitsFrom m num' (size - num'))) := by
+  intro fuel
+  induction fuel with
+  | zero =>
+    intro num shift value _ hn
+    exact ⟨true, value, num, by simp [rPackedLoop], Nat.le_refl _, hn, by simp [Utcp.rPackedLoop]⟩
+  | succ f ih =>
+    intro num shift value hv hn
+    unfold rPackedLoop Utcp.rPackedLoop
+    by_cases hend : num + 8 > size
+    · rw [if_pos hend]
+      refine ⟨false, value, num, rfl, Nat.le_refl _, hn, ?_⟩
+      have : Utcp.readBits 8 (bitsFrom m num (size - num)) = .fail (bitsFrom m num (size - num)) := by
+        unfold Utcp.readBits
+        rw [if_neg (by simp; omega)]
+      simp only [this, Bool.false_eq_true, if_false]
+    · rw [if_neg hend]
+      obtain ⟨s0, s1, h0, h1, hbyte⟩ := packedByte m hm num (by omega)
+      simp only [h1]
+      simp only [h0, Option.bind_some, hbyte]
+      have hb256 : bitsToNat (bitsFrom m num 8) < 256 := by
+        have := bitsToNat_lt (bitsFrom m num 8)
+        simpa using this
+      have hsp : size - num = 8 + (size - (num + 8)) := by omega
+      rw [hsp, bitsFrom_append, sReadBits_ok 8 _ _ (by simp)]
+      simp only
+      generalize bitsToNat (bitsFrom m num 8) = byte at hb256 ⊢
+      rw [packedAcc byte shift value hv]
+      have hcond : (byte &&& 1 = 0) ↔ ¬ (byte % 2 = 1) := by rw [Nat.and_one_is_mod]; omega
+      by_cases hb : byte % 2 = 1
+      · have hc : ¬ (byte &&& 1 = 0) := fun h => (hcond.mp h) hb
+        rw [if_neg hc, if_pos hb]
+        have e1 : num / 8 + 1 = (num + 8) / 8 := by omega
+        have e2 : num % 8 = (num + 8) % 8 := by omega
+        have hv' : (value + byte / 2 * 2 ^ shift) % 2 ^ 32 < 2 ^ (shift + 7) := by
+          apply Nat.lt_of_le_of_lt (Nat.mod_le _ _)
+          rw [Nat.pow_add]
+          have h127 : byte / 2 * 2 ^ shift ≤ 127 * 2 ^ shift := Nat.mul_le_mul_right _ (by omega)
+          have : (2 : Nat) ^ 7 = 128 := rfl
+          rw [this]
+          omega
+        rw [e1, e2]
+        obtain ⟨ok, v, num', hr, hle, hle2, hS⟩ := ih (num + 8) (shift + 7) ((value + byte / 2 * 2 ^ shift) % 2 ^ 32) hv' (by omega)
+        exact ⟨ok, v, num', hr, by omega, hle2, hS⟩
+      · have hc : byte &&& 1 = 0 := hcond.mpr hb
+        rw [if_pos hc, if_neg hb]
+        exact ⟨true, _, num + 8, rfl, by omega, by omega, by simp⟩
+
+end Utcp.BB
+
+namespace Utcp.BB
+
+/-- `bitbuf_read_int_packed` is the bit-level `readIntPacked` on the bits that are left: same value, same bits consumed; when it runs into the end the
+groups already consumed stay consumed, and the cursor is still inside the buffer; the array is only touched below `size` -/
+theorem readIntPacked_refines (b : Buf) (hb : RB b) :
+    ∃ ok v b', readIntPacked b = some (ok, v, b') ∧ RB b' ∧ b'.mem = b.mem ∧ b'.size = b.size ∧
+      Utcp.readIntPacked (rest b) = (if ok then .ok v (rest b') else .fail (rest b')) := by
+  obtain ⟨ok, v, num', hr, hle, hle2, hS⟩ := rPackedLoop_spec b.mem hb.bytes b.size hb.size 5 b.num 0 0 (by simp) hb.num
+  unfold readIntPacked
+  rw [hr]
+  simp only [Option.bind_some]
+  refine ⟨ok, _, _, rfl, ⟨hb.bytes, hb.size, hle2⟩, rfl, rfl, ?_⟩
+  unfold Utcp.readIntPacked rest
+  rw [hS]
+  cases ok <;> simp
+
+/-! ### what was written is read back, at the level of the bytes
+
+The bit-level round trips of `Props/C12.lean`, transported: a read buffer whose remaining bits start with what a writer produced. -/
+
+theorem read_back_int (rb : Buf) (hrb : RB rb) (v mx : Nat) (r : Bits) (hv : v < mx) (hmx : mx ≤ 2 ^ 32)
+    (hrest : rest rb = Utcp.writeInt v mx ++ r) :
+    ∃ rb', readInt rb mx = some (true, v, rb') ∧ RB rb' ∧ rest rb' = r := by
+  obtain ⟨ok, v', b', h, hrb', _, _, hS, _⟩ := readInt_refines rb hrb mx
+  rw [hrest, Utcp.readInt_writeInt v mx r hv hmx] at hS
+  cases ok with
+  | false => simp at hS
+  | true =>
+    simp only [if_true, RR.ok.injEq] at hS
+    obtain ⟨h1, h2⟩ := hS
+    subst h1
+    exact ⟨b', h, hrb', h2.symm⟩
+
+theorem read_back_packed (rb : Buf) (hrb : RB rb) (v : Nat) (r : Bits) (hv : v < 2 ^ 32)
+    (hrest : rest rb = Utcp.writeIntPacked v ++ r) :
+    ∃ rb', readIntPacked rb = some (true, v, rb') ∧ RB rb' ∧ rest rb' = r := by
+  obtain ⟨ok, v', b', h, hrb', _, _, hS⟩ := readIntPacked_refines rb hrb
+  rw [hrest, Utcp.readIntPacked_write v r, Nat.mod_eq_of_lt hv] at hS
+  cases ok with
+  | false => simp at hS
+  | true =>
+    simp only [if_true, RR.ok.injEq] at hS
+    obtain ⟨h1, h2⟩ := hS
+    subst h1
+    exact ⟨b', h, hrb', h2.symm⟩
+
+theorem read_back_bits (rb : Buf) (hrb : RB rb) (w r : Bits) (out : Mem) (hout : BytesOK out) (hlen : out.length = (w.length + 7) / 8)
+    (hrest : rest rb = w ++ r) :
+    ∃ out' rb', readBits rb out w.length = some (true, out', rb') ∧ RB rb' ∧ rest rb' = r ∧ bitsFrom out' 0 w.length = w ∧
+      out'.length = out.length ∧ ∀ k, w.length ≤ k → bit out' k = false := by
+  obtain ⟨ok, out', b', h, hrb', _, _, hl, hS, hz, _⟩ := readBits_refines rb hrb out hout w.length hlen
+  rw [hrest, sReadBits_ok w.length w r rfl] at hS
+  cases ok with
+  | false => simp at hS
+  | true =>
+    simp only [if_true, RR.ok.injEq] at hS
+    exact ⟨out', b', h, hrb', hS.2.symm, hS.1.symm, hl, hz rfl⟩
+
+end Utcp.BB
